@@ -103,10 +103,14 @@ impl FilesToRead {
         }
     }
 
-    fn inner(&self) -> (&FileContent, &str, &Files) {
+    fn inner(&self) -> WriterResult<(&FileContent, &str, &Files)> {
         let FilesToRead { start_with_file, files } = self;
-        let content = files.map.get(start_with_file).unwrap();
-        (content, start_with_file, files)
+        // the file to start with may not be among the files that were registered
+        let content = files
+            .map
+            .get(start_with_file)
+            .ok_or_else(|| WriterError::ImportNotFound(start_with_file.clone()))?;
+        Ok((content, start_with_file, files))
     }
 }
 
@@ -116,7 +120,7 @@ impl XmlReader {
     /// # Errors
     /// Returns an error if the XSD/WSDL is invalid
     pub fn read_xml(files_to_read: &FilesToRead) -> WriterResult<RustDocument> {
-        let (content, start_with_file, files) = files_to_read.inner();
+        let (content, start_with_file, files) = files_to_read.inner()?;
         // every call starts with a clean slate, so that the same input can be read again
         for file in files.map.values() {
             file.processed.store(false, std::sync::atomic::Ordering::SeqCst);
